@@ -153,7 +153,13 @@ pub fn gen_case(rng: &mut Rng, o: &GenOpts, max_exchanges: usize) -> ExchangeCas
     for _ in 0..n {
         // split right after the head, or late: after a few body pieces were read on the whole
         // stream (the split may then fall in the middle of a DATA frame)
-        let late = |rng: &mut Rng, split: bool| if split && rng.chance(1, 2) { Some(rng.usize(4)) } else { None };
+        let late = |rng: &mut Rng, split: bool| {
+            if split && rng.chance(1, 2) {
+                Some(if rng.chance(1, 4) { apps::SPLIT_AFTER_BODY } else { rng.usize(4) })
+            } else {
+                None
+            }
+        };
         let split = rng.chance(1, 3);
         reqs.push(ReqPlan {
             req: msggen::gen_request(rng, o),
